@@ -31,7 +31,7 @@ func TestP1Control(t *testing.T) {
 	rec := ev.New("C03", "control")
 	defer rec.Finish(t)
 	maxTok := ev.Total(40, 120)
-	rec.Rule("control-flow programs from a grammar: procedure literals nested to depth 4 at first/middle/last body position (left on the stack, executed with exec, or popped); if/ifelse with constant and computed conditions; repeat, for (positive and negative increments, empty ranges), forall over arrays, strings of 0-4 drawn bytes (incl. NUL and bytes >= 0x80), single-entry dictionaries and empty arrays, loop with a counter; exit and stop at arbitrary points inside and outside loops; definitions of values and procedures under the names p q x y add pop with later redefinition, calls by name, load, load exec; operator names (add pop dup exch count) shadowed without def - by put into userdict or a fresh dictionary, or as an entry of a << >> dictionary pushed with begin - then used directly, inside a procedure, or through load, also after the shadowing dictionary is popped again; loops (repeat, loop, for, forall) whose body is a single name naming a procedure that rebinds that name while it runs (by def, or on a newly begun dictionary); bind before and after redefinition of operator names; begin/end shapes incl. missing end, stray end, and 10-19 nested dictionaries; known/where. Bodies push distinct trace integers so that the number and operands of iterations show in the final stack. Oracle: reference interpreter with an explicit execution stack (PLRM execution model): equal final state, or equal error name (invalidexit for a stray exit; stop ends the run without error). Non-trivial: nesting depth >= 2 and one of {loop, exit/stop, body-position procedure literal, use of a (re)defined name}; distinct by program text.")
+	rec.Rule("control-flow programs from a grammar: procedure literals nested to depth 4 at first/middle/last body position (left on the stack, executed with exec, or popped); if/ifelse with constant and computed conditions; repeat, for (positive and negative increments, empty ranges), forall over arrays, strings of 0-4 drawn bytes (incl. NUL and bytes >= 0x80), single-entry dictionaries and empty arrays, loop with a counter; exit and stop at arbitrary points inside and outside loops; definitions of values and procedures under the names p q x y add pop with later redefinition, calls by name, load, load exec; names whose value is an executable name taken out of a procedure body (executed in turn, with the target defined before or after); operator names (add pop dup exch count) shadowed without def - by put into userdict or a fresh dictionary, or as an entry of a << >> dictionary pushed with begin - then used directly, inside a procedure, or through load, also after the shadowing dictionary is popped again; loops (repeat, loop, for, forall) whose body is a single name naming a procedure that rebinds that name while it runs (by def, or on a newly begun dictionary); bind before and after redefinition of operator names; begin/end shapes incl. missing end, stray end, and 10-19 nested dictionaries; known/where. Bodies push distinct trace integers so that the number and operands of iterations show in the final stack. Oracle: reference interpreter with an explicit execution stack (PLRM execution model): equal final state, or equal error name (invalidexit for a stray exit; stop ends the run without error). Non-trivial: nesting depth >= 2 and one of {loop, exit/stop, body-position procedure literal, use of a (re)defined name}; distinct by program text.")
 	ev.SetupRapid(150000, 4000000)
 	rapid.Check(t, func(t *rapid.T) {
 		toks, feat := psgen.Control(t, maxTok)
